@@ -77,6 +77,19 @@ const DELTA_TIMEOUT: Duration = DELTA.checked_mul(3).unwrap();
 /// Timeout for standstill detection mechanism.
 const DELTA_STANDSTILL: Duration = Duration::from_millis(10_000);
 
+/// The private timing constants, for the external verification harness:
+/// `(DELTA_BLOCK, DELTA_FIRST_SLICE, DELTA_TIMEOUT, DELTA_STANDSTILL)`.
+#[cfg(alpenglow_verif)]
+#[must_use]
+pub const fn verif_timing() -> (Duration, Duration, Duration, Duration) {
+    (
+        DELTA_BLOCK,
+        DELTA_FIRST_SLICE,
+        DELTA_TIMEOUT,
+        DELTA_STANDSTILL,
+    )
+}
+
 /// Minimum fraction of total stake required for a weakest quorum (20%).
 pub const WEAKEST_QUORUM_THRESHOLD: Fraction = Fraction::new(1, NonZeroU64::new(5).unwrap());
 /// Minimum fraction of total stake required for a weak quorum (40%).
